@@ -239,6 +239,29 @@ fn dynamic_chain(n: usize) -> Vec<u8> {
 	class_with_code(cf, code.len() as u32, &code, &[], &[], vec![bs])
 }
 
+/// an acyclic graph with fan-out: constant i names constant i+1 `fan` times as bootstrap argument, the last one an
+/// Integer. The file has `levels` constants; a reader that expands the shared constants into a tree needs
+/// `fan^levels` steps and nodes.
+fn dynamic_dag(levels: usize, fan: usize, via_indy: bool) -> Vec<u8> {
+	let mut cf = Cf::new();
+	let h = bsm_handle(&mut cf);
+	let nt = cf.nat("k", "Ljava/lang/Object;");
+	let last = cf.int(7);
+	let dyns: Vec<u16> = (0..levels).map(|i| cf.idx2(17, i as u16, nt)).collect();
+	let mut methods: Vec<(u16, Vec<u16>)> = (0..levels).map(|i| (h, vec![if i + 1 < levels { dyns[i + 1] } else { last }; fan])).collect();
+	let mut code = ldc_w(dyns[0]);
+	if via_indy {
+		let mnt = cf.nat("run", "()V");
+		methods.push((h, vec![dyns[0]; fan]));
+		let indy = cf.idx2(18, levels as u16, mnt);
+		code = vec![0xba];
+		code.extend(be16(indy));
+		code.extend([0, 0, RETURN]);
+	}
+	let bs = bootstrap_attr(&mut cf, &methods);
+	class_with_code(cf, code.len() as u32, &code, &[], &[], vec![bs])
+}
+
 /// element_value nested `depth` deep: `kind` b'@' (annotation inside annotation) or b'[' (array inside array)
 fn nested_element_value(kind: u8, depth: usize, type_idx: u16, name_idx: u16) -> Vec<u8> {
 	let mut b = Vec::new();
@@ -714,6 +737,11 @@ pub fn adversaries(thorough: bool) -> Vec<Adversary> {
 	adv(&mut v, "dynamic-self/never-loaded", c, || dynamic_cycle(1, false, false));
 	for n in [10usize, 1000, 10_000, 30_000] {
 		adv(&mut v, format!("dynamic-chain/finite-depth-{n}"), c, move || dynamic_chain(n));
+	}
+	// shared (not nested) dynamic constants: tiny files whose expansion into a tree is exponential
+	for (levels, fan) in [(3usize, 2usize), (12, 2), (24, 2), (40, 2), (200, 2), (16, 3), (10, 8), (5, 200)] {
+		adv(&mut v, format!("dynamic-dag/{levels}-levels-fan-{fan}/loaded-by-ldc"), c, move || dynamic_dag(levels, fan, false));
+		adv(&mut v, format!("dynamic-dag/{levels}-levels-fan-{fan}/argument-of-invokedynamic"), c, move || dynamic_dag(levels, fan, true));
 	}
 	// deep nesting of element values
 	let depths: &[usize] = if thorough { &[100, 10_000, 100_000, 1_000_000] } else { &[100, 10_000, 100_000] };
